@@ -174,7 +174,13 @@ def _run_base(ctx):
     sides = []
     for a in stream_assigns:
         var = a.targets[0].id if isinstance(a.targets[0], ast.Name) else None
-        args = a.value.args
+        # positional or keyword call: bind against the callee's parameter order
+        gparams = param_names(repo.func(GF + ':_get_diff_entry_stream'))
+        args = list(a.value.args)
+        kwmap = {k.arg: k.value for k in a.value.keywords if k.arg}
+        for pn in gparams[len(args):3]:
+            if pn in kwmap:
+                args.append(kwmap[pn])
         side_letters = set()
         for x in args[:2]:
             d = dotted(x) or ''
